@@ -431,8 +431,19 @@ def run_wide_histories(chk: core.Check, n_hist: int, extra=None):
             chk.count("wide_initial", "run-length encoding")
         done = []
         for _ in range(rng.randint(2, 7)):
+            failed = False
             for _r in range(rng.choice([0, 1, 2, 3])):
-                done.append({"op": "read", "read": wide_read(t, rng)})
+                try:
+                    done.append({"op": "read", "read": wide_read(t, rng)})
+                except Exception as e:  # noqa: BLE001
+                    import traceback
+
+                    chk.fail({**case0, "ops": list(done), "exception": repr(e), "trace": traceback.format_exc()[-700:]},
+                             f"a read of the table raised {type(e).__name__} (the caches do not hold what the XML says)")
+                    failed = True
+                    break
+            if failed:
+                break
             try:
                 d = wide_op(t, rng)
             except Exception as e:  # noqa: BLE001
